@@ -8,6 +8,8 @@ schedule and every capacity, delivered ++ buffered is a prefix of that meaning o
 sent, and equals it once the worker has left with its input closed (uses Golem.Lemmas.PoolInv).
 -/
 import Golem.Lemmas.StageSpec
+import Golem.Lemmas.PoolInv
+import Golem.Lemmas.PoolClosed
 namespace Golem.Props.C05
 open Golem.Go Golem.Go.Stage Golem.Model Golem.Lemmas
 
@@ -54,5 +56,153 @@ theorem void_spec (as : List α) : ((voidS (α := α)).run () as).ems = [] := St
 
 /-! non-vacuity -/
 example : onCh 0 ((takeS (α := Nat)).run 2 [5, 6, 7]).ems = [5, 6] := by decide
+
+end Golem.Props.C05
+
+/-! ## Part 2 — the network: every schedule, every capacity
+
+`pipePool s0 inCap outCap closes` is the one-goroutine network of a `pipe` stage; `Reachable`
+ranges over every finite sequence of environment moves (send, close, receive, cancel) and
+process moves, i.e. every interleaving, for arbitrary capacities. -/
+namespace Golem.Props.C05
+open Golem.Go Golem.Go.Stage Golem.Go.Pool Golem.Model
+
+variable {σ α β γ ε : Type}
+
+/-- Safety: in every reachable state — however producer, stage and consumers are interleaved —
+what has been delivered on output `k` is a prefix of the list image of everything sent
+(stages without exit-path sends: all but Fold). -/
+theorem pipe_delivered_prefix (st : Stage σ α γ) (s0 : σ) (inCap : Nat) (outCap : Nat → Nat) (closes : List Nat)
+    (hnd : closes.Nodup) (gated : Bool) (hf : ∀ s, st.final s = []) {p : Pool σ α γ}
+    (hr : Reachable st (pipePool s0 inCap outCap closes gated) p) (k : Nat) :
+    p.delivered k <+: onCh k (st.run s0 (p.sent 0)).ems :=
+  single_delivered_prefix (inv_reachable st 1 _ s0 _ outCap closes gated hnd hr)
+    (by have := reachable_nW hr; simpa [pipePool, Pool.init] using this) hf k
+
+/-- Exactness: not cancelled, the input closed and the goroutine gone ⇒ delivered ++ still buffered
+is *exactly* the list image of everything sent (plus the exit-path send of Fold), on every output. -/
+theorem pipe_complete (st : Stage σ α γ) (s0 : σ) (inCap : Nat) (outCap : Nat → Nat) (closes : List Nat)
+    (hnd : closes.Nodup) (gated : Bool) {p : Pool σ α γ}
+    (hr : Reachable st (pipePool s0 inCap outCap closes gated) p)
+    (hc : p.cancelled = false) (hx : Ctl.isExited (p.ws 0).ctl = true) (hcl : (p.ins 0).closed = true) (k : Nat) :
+    p.delivered k ++ (p.outs k).buf
+      = onCh k (st.run s0 (p.sent 0)).ems ++ (((st.final (st.run s0 (p.sent 0)).s).filter (·.1 == k)).map (·.2)) :=
+  single_complete (inv_reachable st 1 _ s0 _ outCap closes gated hnd hr)
+    (by have := reachable_nW hr; simpa [pipePool, Pool.init] using this) hc hx hcl k
+
+/-- Liveness, deadlock-freedom half: input closed, nothing left for the consumers to receive, the stage
+cannot move ⇒ the goroutine has exited and every output on its close list is closed. (That the stage
+reaches such a state after finitely many of its own moves is `proc_terminates`.) -/
+theorem pipe_closes (st : Stage σ α γ) (s0 : σ) (inCap : Nat) (outCap : Nat → Nat) (closes : List Nat)
+    (hnd : closes.Nodup) {p : Pool σ α γ}
+    (hr : Reachable st (pipePool s0 inCap outCap closes false) p)
+    (hcl : (p.ins 0).closed = true) (hq : procNext st p = []) (hd : ∀ k, ¬ canRecv st p k)
+    (hb : ¬ blockedPlain p 0) :
+    Ctl.isExited (p.ws 0).ctl = true ∧ ∀ k ∈ closes, (p.outs k).closed = true := by
+  have hn : p.nW = 1 := by have := reachable_nW hr; simpa [pipePool, Pool.init] using this
+  have hg : p.gated = false := by have := reachable_gated hr; simpa [pipePool, Pool.init] using this
+  have hI := inv_reachable st 1 _ s0 _ outCap closes false hnd hr
+  have := quiescent_drained st hI hg (by intro i hi; have : i = 0 := by omega
+                                         subst this; simpa using hcl) hq hd
+    (by intro i hi; have : i = 0 := by omega
+        subst this; exact hb)
+  refine ⟨?_, all_closed_of_done (closedInv_reachable st 1 _ s0 _ outCap closes false hr) this.2⟩
+  have hx := this.1
+  simp only [allExited, hn, List.range_one, List.all_cons, List.all_nil, Bool.and_true] at hx
+  exact hx
+
+/-- between two environment moves a stage makes only finitely many moves, whatever the scheduler does -/
+theorem pipe_moves_finite (st : Stage σ α γ) (s0 : σ) :
+    WellFounded (fun (q p : Pool σ α γ) =>
+      Inv st s0 (fun _ => 0) p ∧ (∀ i, i < p.nW → (p.ws i).inp < 1) ∧ q ∈ procNext st p) :=
+  proc_terminates st s0 _ 1
+
+/-! per-stage corollaries: network behaviour = list function -/
+
+theorem map_network (m : ErrMode) (f : α → Except ε β) (g : α → β) (hf : ∀ a, f a = .ok (g a))
+    (inCap : Nat) (outCap : Nat → Nat) {p : Pool Unit α (β ⊕ ε)}
+    (hr : Reachable (mapS m f) (pipePool () inCap outCap [1, 0] false) p)
+    (hc : p.cancelled = false) (hx : Ctl.isExited (p.ws 0).ctl = true) (hcl : (p.ins 0).closed = true) :
+    p.delivered 0 ++ (p.outs 0).buf = (p.sent 0).map (fun a => Sum.inl (g a)) ∧
+    p.delivered 1 ++ (p.outs 1).buf = [] := by
+  have h0 := pipe_complete (mapS m f) () inCap outCap [1, 0] (by decide) false hr hc hx hcl 0
+  have h1 := pipe_complete (mapS m f) () inCap outCap [1, 0] (by decide) false hr hc hx hcl 1
+  simp only [(map_spec m f g hf _).1, (map_spec m f g hf _).2] at h0 h1
+  simpa [mapS] using And.intro h0 h1
+
+theorem flatMap_network (m : ErrMode) (g : α → List β × Option ε) (hg : ∀ a, (g a).2 = none)
+    (inCap : Nat) (outCap : Nat → Nat) {p : Pool Unit α (β ⊕ ε)}
+    (hr : Reachable (fmapS m g) (pipePool () inCap outCap [1, 0] false) p)
+    (hc : p.cancelled = false) (hx : Ctl.isExited (p.ws 0).ctl = true) (hcl : (p.ins 0).closed = true) :
+    p.delivered 0 ++ (p.outs 0).buf = ((p.sent 0).flatMap fun a => (g a).1).map Sum.inl := by
+  have h0 := pipe_complete (fmapS m g) () inCap outCap [1, 0] (by decide) false hr hc hx hcl 0
+  rw [(flatMap_spec m g hg _).1] at h0
+  simpa [fmapS] using h0
+
+theorem filter_network (f : α → Except ε Bool) (pr : α → Bool) (hf : ∀ a, f a = .ok (pr a))
+    (inCap : Nat) (outCap : Nat → Nat) {p : Pool Unit α α}
+    (hr : Reachable (filterS f) (pipePool () inCap outCap [0] false) p)
+    (hc : p.cancelled = false) (hx : Ctl.isExited (p.ws 0).ctl = true) (hcl : (p.ins 0).closed = true) :
+    p.delivered 0 ++ (p.outs 0).buf = (p.sent 0).filter pr := by
+  have h0 := pipe_complete (filterS f) () inCap outCap [0] (by decide) false hr hc hx hcl 0
+  rw [filter_spec f pr hf] at h0
+  simpa [filterS] using h0
+
+theorem partition_network (f : α → Except ε Bool) (pr : α → Bool) (hf : ∀ a, f a = .ok (pr a))
+    (inCap : Nat) (outCap : Nat → Nat) {p : Pool Unit α α}
+    (hr : Reachable (partitionS f) (pipePool () inCap outCap [0, 1] false) p)
+    (hc : p.cancelled = false) (hx : Ctl.isExited (p.ws 0).ctl = true) (hcl : (p.ins 0).closed = true) :
+    p.delivered 0 ++ (p.outs 0).buf = (p.sent 0).filter pr ∧
+    p.delivered 1 ++ (p.outs 1).buf = (p.sent 0).filter (fun a => !pr a) := by
+  have h0 := pipe_complete (partitionS f) () inCap outCap [0, 1] (by decide) false hr hc hx hcl 0
+  have h1 := pipe_complete (partitionS f) () inCap outCap [0, 1] (by decide) false hr hc hx hcl 1
+  simp only [(partition_spec f pr hf _).1, (partition_spec f pr hf _).2] at h0 h1
+  simpa [partitionS] using And.intro h0 h1
+
+theorem takeWhile_network (f : α → Except ε Bool) (pr : α → Bool) (hf : ∀ a, f a = .ok (pr a))
+    (inCap : Nat) (outCap : Nat → Nat) {p : Pool Unit α α}
+    (hr : Reachable (takeWhileS f) (pipePool () inCap outCap [0] false) p)
+    (hc : p.cancelled = false) (hx : Ctl.isExited (p.ws 0).ctl = true) (hcl : (p.ins 0).closed = true) :
+    p.delivered 0 ++ (p.outs 0).buf = (p.sent 0).takeWhile pr := by
+  have h0 := pipe_complete (takeWhileS f) () inCap outCap [0] (by decide) false hr hc hx hcl 0
+  rw [takeWhile_spec f pr hf] at h0
+  simpa [takeWhileS] using h0
+
+/-- Take, every n ≥ 0 (the repaired code): n ≥ 1 forwards the first n; n = 0 starts no goroutine and
+delivers nothing in any reachable state -/
+theorem take_network (n : Nat) (inCap : Nat) {p : Pool Int α α}
+    (hr : Reachable (takeS (α := α)) (takePool (n : Int) inCap false) p)
+    (hc : p.cancelled = false) (hx : 1 ≤ n → Ctl.isExited (p.ws 0).ctl = true) (hcl : (p.ins 0).closed = true) :
+    p.delivered 0 ++ (p.outs 0).buf = (p.sent 0).take n := by
+  cases n with
+  | zero =>
+    have hr' : Reachable (takeS (α := α)) (Pool.init 0 (fun _ => 0) (0 : Int) (fun _ => inCap) (fun _ => inCap) [0] false) p := by
+      simpa [takePool] using hr
+    have hI := inv_reachable takeS 0 _ (0 : Int) _ _ [0] false (by decide) hr'
+    have hn : p.nW = 0 := by have := reachable_nW hr'; simpa [Pool.init] using this
+    have : p.emitted 0 = [] := by
+      cases he : p.emitted 0 with
+      | nil => rfl
+      | cons x xs => have := hI.tagsOut 0 x (by simp [he]); omega
+    have h2 := hI.fifoOut 0
+    simp [this] at h2
+    simp [h2]
+  | succ m =>
+    have hr' : Reachable (takeS (α := α)) (pipePool ((m + 1 : Nat) : Int) inCap (fun _ => inCap) [0] false) p := by
+      have hpos : ¬ (((m + 1 : Nat) : Int) ≤ 0) := by omega
+      unfold takePool at hr
+      rw [if_neg hpos] at hr
+      exact hr
+    have h0 := pipe_complete takeS _ inCap _ [0] (by decide) false hr' hc (hx (by omega)) hcl 0
+    rw [take_spec (m + 1) (by omega)] at h0
+    simpa [takeS] using h0
+
+/-- Fold: exactly one value, the left fold from the monoid's empty element -/
+theorem fold_network (c : α → α → α) (e : α) (inCap : Nat) (outCap : Nat → Nat) {p : Pool α α α}
+    (hr : Reachable (foldS c) (pipePool e inCap outCap [0] false) p)
+    (hc : p.cancelled = false) (hx : Ctl.isExited (p.ws 0).ctl = true) (hcl : (p.ins 0).closed = true) :
+    p.delivered 0 ++ (p.outs 0).buf = [(p.sent 0).foldl c e] := by
+  have h0 := pipe_complete (foldS c) e inCap outCap [0] (by decide) false hr hc hx hcl 0
+  simpa [(fold_spec c e _).1, (fold_spec c e _).2] using h0
 
 end Golem.Props.C05
